@@ -280,7 +280,7 @@ def name_elements(rng, n, kind):
     raise ValueError(kind)
 
 
-def gen_dataset(rng, nmax=7, mmax=5, family=None, kind=None, allow_empty=True, nmin=1, big=0.0, big_nmax=40):
+def gen_dataset(rng, nmax=7, mmax=5, family=None, kind=None, allow_empty=True, nmin=1, big=0.0, big_nmax=40, big_hi=0.15):
     """Returns (raw, meta). raw: list of rankings of buckets of values; at least one non-empty ranking.
     big: share of instances well above nmax / mmax (12..40 elements, 3..12 rankings): code paths that depend on a size."""
     if family is None:
@@ -291,7 +291,7 @@ def gen_dataset(rng, nmax=7, mmax=5, family=None, kind=None, allow_empty=True, n
     m = rng.randint(1, mmax)
     is_big = big > 0 and rng.random() < big
     if is_big:
-        n = rng.randint(12, big_nmax)
+        n = rng.randint(12, min(40, big_nmax)) if (big_nmax <= 40 or rng.random() >= big_hi) else rng.randint(41, big_nmax)
         m = rng.randint(3, 12)
     elems = name_elements(rng, n, kind)
     td = rng.choice([0.0, 0.2, 0.5, 0.8])
